@@ -34,6 +34,7 @@ type c17Scenario struct {
 	faults   bool // lock/storage faults (a lock fault is the fatal stop)
 	cancel   bool // context cancellation as a move
 	sunset   bool // jump past the read-only date as a move
+	clock    bool // clock anomalies (stall, step back, jump) at every clock read
 	bound    int
 	// direct: the rounds are driven by calling sequence() directly (no ticker), so
 	// that a round can deterministically start with an already-cancelled context
@@ -291,7 +292,8 @@ func runC17(t *testing.T, sc *c17Scenario, prefix []int) *verifmc.ExecResult {
 	synctest.Test(t, func(t *testing.T) {
 		s := verifmc.NewSched(prefix)
 		base := getBase(0)
-		w := newWorld(s, base, options{faults: sc.faults})
+		w := newWorld(s, base, options{faults: sc.faults, clock: sc.clock})
+		w.steadyClock = true // the initial load is not part of the scenario
 		x := &c17Exec{sc: sc, w: w, s: s, pools: map[*pool][]*c17Wait{}, t0: time.Now()}
 		x.reqCtx, x.reqCancel = context.WithCancel(context.Background())
 		prevLock := w.lock.OnEffect
@@ -327,6 +329,7 @@ func runC17(t *testing.T, sc *c17Scenario, prefix []int) *verifmc.ExecResult {
 			panic(verifmc.EngineError{Msg: "c17 LoadLog: " + err.Error()})
 		}
 		in.log = l
+		w.steadyClock = false
 		x.in = in
 		x.lastCur = l.currentPool
 		in.bh.Quiet, in.lh.Quiet = false, false
@@ -512,6 +515,7 @@ func scenariosC17() []*c17Scenario {
 		{name: "c17/size1/fatal-stop", poolSize: 1, subs: [][]c17Sub{{H("a"), H("b")}, {L("c")}}, ticks: 3, faults: true, bound: bound},
 		{name: "c17/size2/cancel", poolSize: 2, subs: [][]c17Sub{{H("a"), H("b")}, {L("c")}}, ticks: 3, cancel: true, bound: bound},
 		{name: "c17/size2/direct-cancel", poolSize: 2, subs: [][]c17Sub{{H("a"), H("b")}, {L("c")}}, direct: 2, cancel: true, bound: bound},
+		{name: "c17/size2/clock-anomaly", poolSize: 2, subs: [][]c17Sub{{H("a"), H("b")}, {L("c")}}, ticks: 3, clock: true, bound: bound},
 		{name: "c17/size2/sunset", poolSize: 2, subs: [][]c17Sub{{H("a"), H("b")}, {L("c")}}, ticks: 3, sunset: true, bound: bound},
 	}
 	if thorough {
